@@ -248,10 +248,16 @@ func (x *Exec) callByContract(fr *Frame, st *State, callee *ssa.Function, c *Con
 				anyOf[name] = true
 			} else {
 				excl[name] = append(excl[name], ref)
+				for _, nm := range expandMod(name) {
+					excl[nm] = append(excl[nm], ref)
+				}
 			}
 			// the caller itself must be allowed to modify it
 			if !all {
 				x.noteWrite(st, name, ref)
+				for _, nm := range expandMod(name) {
+					x.noteWrite(st, nm, ref)
+				}
 			}
 		}
 	}
@@ -455,4 +461,16 @@ func (x *Exec) appendOp(st *State, s, t *Val, rt types.Type) *Val {
 	}
 	x.ctx.hwrite(st, name, asort, ref, newArr)
 	return &Val{T: mkSlice(ref, slOff(s.T), Add(slLen(s.T), slLen(tv))), Typ: rt}
+}
+
+// expandMod: heap maps that belong to the same modifies location as `name` (a map's values and size, the parts of the
+// ghost file system).
+func expandMod(name string) []string {
+	switch {
+	case strings.HasPrefix(name, "mapdom:"):
+		return []string{strings.Replace(name, "mapdom:", "mapval:", 1), strings.Replace(name, "mapdom:", "mapsize:", 1)}
+	case name == ghostWrites:
+		return []string{ghostLastPath, ghostLastData}
+	}
+	return nil
 }
